@@ -16,6 +16,8 @@ func init() {
 }
 
 func runC02(r *engine.Run) {
+	r.Rule("FRESH-pathbuf", "see C01: Insert copies the caller's path before it builds nodes from it: leaves and extensions keep sub-slices of the path, and a caller that reuses its key buffer would change stored and pending nodes behind their hashes")
+	r.Rule("DEP-absent", "see C01: deleting at an exhausted path removes only an entry stored exactly there (a leaf reached with a remaining path of its own is another key): otherwise a delete of a never-stored prefix key removes another entry and two histories with the same content have different roots")
 	r.Rule("REF-poolput", "see C16: no object is touched after it went back to a sync.Pool (every node key and root is a RawHash: a pooled hash state that another goroutine took before the digest was read yields keys that are not the hash of the node)")
 	r.Rule("DOM-merge", "see C03: in mergeChanges no error return is reachable after the parent's root was installed (a merge that fails after moving the root leaves a root that commits to content the store does not hold, and the retry reports success at the same-root shortcut)")
 	r.Rule("RET-pair", "every success return of a recursive insert/delete helper of the state trie (results Node, Key, error) hands back a pair that belongs together: both results of one helper call, (nil, nil), or a node with its own GetHashBytes() - the caller rebuilds itself by the kind of the returned node and links the returned key, so a node from one source and a key from another give the parent a non-canonical form")
@@ -55,6 +57,8 @@ func runC02(r *engine.Run) {
 	retPairMPT(r, "RET-pair")
 	refPoolPut(r, "REF-poolput")
 	rootMovedLast(r, "DOM-merge")
+	freshPathBuf(r, "FRESH-pathbuf")
+	depAbsent(r)
 }
 
 var trieNodeTypes = []string{"LeafNode", "FullNode", "ExtensionNode"}
